@@ -50,6 +50,12 @@ def der_vectors(c):
                  [1, 2] + [M32] * 29, [2, M32 - 80, 0] + [(1 << 28) + i for i in range(29)]):
         lines.append({"kind": "encoid", "arcs": ",".join(map(str, arcs))})
         exp.append(("encoid", arcs, (1, list(derw.oid(arcs)), 0), None, None))
+    # INTEGERs read into a C int at and beyond its upper end (longer than the strings TLC enumerates): 2^31 - 1 is the last value it can carry; 2^31 .. 2^32 - 1
+    # (five content octets 00 xx ..) and larger are refused, not wrapped into a negative number
+    for hx, ok_, val_ in (("02047fffffff", 1, 2147483647), ("02047ffffffe", 1, 2147483646), ("0203800000", 0, 0), ("02050080000000", 0, 0), ("02050080000001", 0, 0), ("020500ffffffff", 0, 0),
+                          ("020500fffffffe", 0, 0), ("02050100000000", 0, 0), ("0205007fffffff", 0, 0), ("02060080000000ff", 0, 0)):
+        b_ = bytes.fromhex(hx)
+        lines.append({"kind": "int", "in": hx}); exp.append(("int", list(b_), (ok_, [val_] if ok_ else [], len(b_) if ok_ else 0), None, None))
     for i, l in enumerate(lines):
         l["id"] = i + 1
     res = CL.run_script("derdrv", ["derdrv.c", "vh.c"], lines, tag="c14d", procs=8)
